@@ -7,6 +7,7 @@ mod ops;
 mod props;
 mod replygen;
 mod sess;
+mod strings;
 mod xmlgen;
 mod xmlstrict;
 
